@@ -80,3 +80,9 @@ CORPUS = [
     M("n-rename", L, 'total_size = int.from_bytes(buf[2:4], "big") + 8', 'size = int.from_bytes(buf[2:4], "big")\n                total_size = size + 8', "S"),
     M("n-empty-segment-return", L, ENTRY, ENTRY.replace("        # Add incoming data to buffer\n", "        if not data:\n            return\n\n        # Add incoming data to buffer\n"), "S"),
 ]
+# round 7 (C04.e): the reassembly buffer belongs to one connection and to its receive callback
+CORPUS += [
+    M("flush-clears-buffer", L, "        try:\n            while True:\n                self._queue.get_nowait()\n        except asyncio.QueueEmpty:\n            pass\n",
+      "        try:\n            while True:\n                self._queue.get_nowait()\n        except asyncio.QueueEmpty:\n            pass\n        self._buffer.clear()\n"),
+    M("disconnect-resets-buffer", L, "        _LOGGER.debug(\"Disconnecting from %s.\", self.peer)\n", "        _LOGGER.debug(\"Disconnecting from %s.\", self.peer)\n        self._buffer = bytearray(0)\n"),
+]
